@@ -4,14 +4,14 @@
 //! recursive bisection; TraceFloatLaw.tla compares length_k / 2^64 with weight_k / total in exact integer arithmetic.
 use crate::rng::{ScriptRng, Sm};
 use crate::util::*;
-use rand_distr::weighted::WeightedTreeIndex;
+use rand_distr::weighted::{AliasableWeight, WeightedAliasIndex, WeightedTreeIndex};
 use rand_distr::Distribution;
 use serde_json::json;
 use std::io::Write;
 
 fn l14(mut v: u128) -> Vec<i64> { let mut o = vec![]; loop { o.push((v & 0x3fff) as i64); v >>= 14; if v == 0 { break; } } o }
 
-trait Wf: Copy + PartialOrd + rand::distr::uniform::SampleUniform + rand_distr::weighted::Weight + core::ops::SubAssign + 'static { const NAME: &'static str; fn of(x: f64) -> Self; fn f64v(self) -> f64; }
+trait Wf: Copy + PartialOrd + rand::distr::uniform::SampleUniform + rand_distr::weighted::Weight + core::ops::SubAssign + AliasableWeight + 'static { const NAME: &'static str; fn of(x: f64) -> Self; fn f64v(self) -> f64; }
 impl Wf for f32 { const NAME: &'static str = "f32"; fn of(x: f64) -> f32 { x as f32 } fn f64v(self) -> f64 { self as f64 } }
 impl Wf for f64 { const NAME: &'static str = "f64"; fn of(x: f64) -> f64 { x } fn f64v(self) -> f64 { self } }
 
@@ -85,12 +85,65 @@ fn cases<W: Wf>(seed: u64, count: usize, out: &mut Vec<String>) where WeightedTr
     }
 }
 
+/// C08, float weights: the exact induced law of WeightedAliasIndex<f32/f64>::sample over its two words.  The first word selects
+/// a column (rand's integer range: the column of a word is measured on an equal-weights table of the same length, whose output
+/// is the column itself), the second is compared with the column's threshold: the second words returning the value at w2 = 0
+/// are a prefix.  Reported per column: its measure c (of 2^64), the two values and the prefix length T; TLC sums the masses.
+fn alias_cases<W: Wf>(seed: u64, count: usize, out: &mut Vec<String>) where WeightedAliasIndex<W>: Distribution<usize> {
+    const SCALE: f64 = 4611686018427387904.0;
+    let mut rnd = Sm(seed ^ 0xa11a5);
+    for c in 0..count {
+        let n = 2 + rnd.below(11) as usize;
+        let full = c % 2 == 1;
+        let genw = move |rnd: &mut Sm| -> f64 { if rnd.below(7) == 0 { 0.0 } else if !full { (1 + rnd.below(4095)) as f64 / 256.0 }
+            else { W::of((1.0 + rnd.below(1 << 52) as f64 / (1u64 << 52) as f64) * [0.00390625, 0.25, 1.0, 8.0][rnd.below(4) as usize]).f64v() } };
+        let mut ws: Vec<f64> = (0..n).map(|_| genw(&mut rnd)).collect();
+        if ws.iter().all(|&x| x == 0.0) { ws[0] = 1.0; }
+        let res = guarded(|| -> Option<Vec<serde_json::Value>> {
+            let d = WeightedAliasIndex::<W>::new(ws.iter().map(|&x| W::of(x)).collect()).ok()?;
+            let eq = WeightedAliasIndex::<W>::new(vec![W::of(1.0); n]).ok()?;
+            let mut r = ScriptRng::new(vec![0, 0], 0);
+            let mut call = |t: &WeightedAliasIndex<W>, w1: u64, w2: u64| -> (usize, u64) { r.prefix[0] = w1; r.prefix[1] = w2; r.pos = 0; r.state = 9; r.n32 = 0; r.n64 = 0; r.nbytes = 0; let v = t.sample(&mut r); (v, r.words()) };
+            // column boundaries on the 32 high bits of the first word (equal-weights table: output = column)
+            let mut cols = vec![];
+            let mut start: u64 = 0;
+            for i in 0..n {
+                // first pattern v >= start whose column is > i
+                let (mut a, mut b) = (start, 1u64 << 32);
+                // a first word in rand's rejection zone (the first pattern of some columns) makes the index draw consume another word:
+                // such a probe says nothing about its column, the next pattern is asked instead
+                let mut col_of = |m: u64| -> usize { for k in 0..8u64 { let (o, nw) = call(&eq, (m + k).min((1u64 << 32) - 1) << 32, 0); if nw == 2 { return o; } } usize::MAX };
+                while a < b { let m = a + (b - a) / 2; if col_of(m) > i { b = m; } else { a = m + 1; } }
+                let end = a;
+                if end > start {
+                    let w1 = (start + (end - start) / 2) << 32;                  // a word in the middle of the column (away from rand's rejection zone at the low end)
+                    let (o0, n0) = call(&d, w1, 0); let (o1, n1) = call(&d, w1, u64::MAX);
+                    let t: u128 = if o0 == o1 { 1u128 << 64 } else {
+                        let (mut a2, mut b2) = (0u128, (1u128 << 64) - 1);   // largest w2 with output o0
+                        while a2 < b2 { let m = a2 + (b2 - a2 + 1) / 2; if call(&d, w1, m as u64).0 == o0 { a2 = m; } else { b2 = m - 1; } }
+                        a2 + 1 };
+                    cols.push(json!({"c": l14(((end - start) as u128) << 32), "o0": o0, "o1": o1, "T": l14(t), "two_words": n0 == 2 && n1 == 2}));
+                }
+                start = end;
+            }
+            Some(cols)
+        });
+        match res {
+            Ok(Some(cols)) => out.push(json!({"op": "alaw", "ft": W::NAME, "res": "Ok", "n": n, "wq": ws.iter().map(|&w| l14((w * SCALE) as u128)).collect::<Vec<_>>(), "cols": cols, "full": full,
+                                              "show": [format!("{:?}", ws)]}).to_string()),
+            Ok(None) => out.push(json!({"op": "alaw", "ft": W::NAME, "res": "ConstructorFailed", "n": n, "wq": [], "cols": [], "show": [format!("{:?}", ws)]}).to_string()),
+            Err(p) => out.push(json!({"op": "alaw", "ft": W::NAME, "res": format!("Panic: {}", p), "n": n, "wq": [], "cols": [], "show": [format!("{:?}", ws)]}).to_string()),
+        }
+    }
+}
+
 pub fn drive(args: &[String]) -> i32 {
     let seed = arg_u64(args, "--seed", 1);
     let count = arg_u64(args, "--count", 300) as usize;
     let outp = arg_val(args, "--out").unwrap();
     let mut out = vec![];
-    cases::<f32>(seed, count, &mut out); cases::<f64>(seed + 1, count, &mut out);
+    if args.iter().any(|a| a == "--alias") { alias_cases::<f32>(seed, count, &mut out); alias_cases::<f64>(seed + 1, count, &mut out); }
+    else { cases::<f32>(seed, count, &mut out); cases::<f64>(seed + 1, count, &mut out); }
     let mut f = std::io::BufWriter::new(std::fs::File::create(&outp).unwrap());
     for l in &out { writeln!(f, "{}", l).unwrap(); }
     println!("{}", json!({"tool": "ftree-drive", "events": out.len()}));
